@@ -277,7 +277,7 @@ CONDS = [
           "thorough": "all grammars with 2-3 productions x all 6 orders"},
          FUNCS, RULE, assumptions=ASSUME),
     Cond("C12", c12_chain, lambda tier: product_pins(sd=[False, True], aa=[False, True], bmask=list(range(16)),
-                                                      perm=([0, 4] if tier == "quick" else [0, 1, 2, 3, 4, 5])),
+                                                      perm=[0, 4]) if tier == "quick" else product_pins(sd=[False, True], aa=[False, True], bmask=list(range(16))),
          {"quick": "the 512 'nullable chain' grammars over 4 variables: all queries on ONE object in 2 orders",
           "thorough": "6 orders"},
          FUNCS, RULE, assumptions=ASSUME),
